@@ -82,7 +82,7 @@ func ruleBasicSampler(r *Run, p *Prog) {
 						if c, ok := rem.X.(*ssa.Call); ok && isCallTo(&c.Call, "sync/atomic.AddUint32") && len(c.Call.Args) == 2 {
 							d, okd := constInt(c.Call.Args[1])
 							fa, okf := c.Call.Args[0].(*ssa.FieldAddr)
-							if okd && d == 1 && okf && fieldVar(fa).Name() == "counter" && isParam(fa.X, f, 0) {
+							if okd && d == 1 && okf && fname(fieldVar(fa)) == "counter" && isParam(fa.X, f, 0) {
 								good = true
 								why = "admit iff (atomic.AddUint32(&s.counter, 1) mod N) == 1"
 							}
@@ -181,11 +181,11 @@ func ruleBurstSampler(r *Run, p *Prog) {
 			return false
 		}
 		fa, ok := c.Call.Args[0].(*ssa.FieldAddr)
-		return ok && fieldVar(fa).Name() == "resetAt" && isParam(fa.X, inc, 0)
+		return ok && fname(fieldVar(fa)) == "resetAt" && isParam(fa.X, inc, 0)
 	}
 	isCounterAddr := func(v ssa.Value) bool {
 		fa, ok := v.(*ssa.FieldAddr)
-		return ok && fieldVar(fa).Name() == "counter" && isParam(fa.X, inc, 0)
+		return ok && fname(fieldVar(fa)) == "counter" && isParam(fa.X, inc, 0)
 	}
 	for i, pa := range ipaths {
 		ret, _ := pa.Exit.(*ssa.Return)
